@@ -1,7 +1,9 @@
 (* Properties/C17.v — thresholding and weight conversion keep exactly the documented entries.
-   Only statements; every proof is `exact <lemma of Proofs/Threshold.v>`. *)
+   Only statements; every proof is `exact <lemma of Proofs/Threshold.v | ThresholdFull.v | ThresholdStore.v>`. *)
+From Coq Require Import String.
 From Coq Require Import QArith Qabs Qround List Arith ZArith Permutation Sorted.
-From BCT Require Import Base.Mat Base.ListX Model.Threshold Proofs.Threshold.
+From BCT Require Import Base.Mat Base.ListX Model.Threshold Proofs.Threshold Proofs.ThresholdFull
+  Model.ThresholdStore Proofs.ThresholdStore.
 Import ListNotations.
 Open Scope Q_scope.
 
@@ -23,11 +25,29 @@ Theorem C17_tp_count :
   length (where_nz n R) = ((if symm then 2 else 1) * Nat.min en (length links))%nat.
 Proof. exact (tp_count order Hadm n W p R Hrun). Qed.
 
-(* the kept ones are the strongest: kept = first en of the sorted links, dropped = the rest *)
-Theorem C17_tp_strongest : forall c d,
-  In c (firstn en (order (snd (tp_prep n W)) links)) -> In d (skipn en (order (snd (tp_prep n W)) links)) ->
-  at_ (snd (tp_prep n W)) d <= at_ (snd (tp_prep n W)) c.
-Proof. exact (tp_strongest order Hadm n W p). Qed.
+(* WHICH cells are kept: the nonzero cells of the output R are exactly the first en of the sorted links
+   (plus their mirror images on the symmetric branch) *)
+Theorem C17_tp_support :
+  Permutation (where_nz n R)
+    (if symm then firstn en (order (snd (tp_prep n W)) links) ++ map swapc (firstn en (order (snd (tp_prep n W)) links))
+     else firstn en (order (snd (tp_prep n W)) links)).
+Proof. exact (tp_support order Hadm n W p R Hrun). Qed.
+
+Theorem C17_tp_kept_iff : forall c, In c links ->
+  (~ at_ R c == 0 <-> In c (firstn en (order (snd (tp_prep n W)) links))).
+Proof. exact (tp_kept_iff order Hadm n W p R Hrun). Qed.
+
+(* the kept ones are the strongest — a statement about the OUTPUT: among the links of the input, every link that R
+   keeps carries its input weight and is at least as strong as every link that R discards *)
+Theorem C17_tp_strongest : forall c d, In c links -> In d links -> ~ at_ R c == 0 -> at_ R d == 0 ->
+  at_ W d <= at_ W c /\ at_ R c == at_ W c.
+Proof. exact (tp_strongest_R order Hadm n W p R Hrun). Qed.
+
+(* what a link is: an off-diagonal nonzero entry of W inside the grid (strictly upper on the symmetric branch) *)
+Theorem C17_tp_links : forall c, In c links ->
+  (fst c < n)%nat /\ (snd c < n)%nat /\ fst c <> snd c /\ (symm = true -> (fst c < snd c)%nat) /\
+  at_ (snd (tp_prep n W)) c = at_ W c /\ ~ at_ W c == 0.
+Proof. exact (links_spec n W p). Qed.
 
 Theorem C17_tp_values : forall i j,
   R i j == 0 \/ (i <> j /\ (R i j == W i j \/ (symm = true /\ R i j == W j i))).
@@ -76,13 +96,78 @@ Proof. exact invert_spec. Qed.
 Theorem C17_invert_involutive : forall W i j, invert (invert W) i j == W i j.
 Proof. exact invert_involutive. Qed.
 
-Theorem C17_copy_flag : forall f W,
-  (let '(arg_after, res, same) := with_copy true f W in arg_after = W /\ res = f W /\ same = false) /\
-  (let '(arg_after, res, same) := with_copy false f W in arg_after = f W /\ res = f W /\ same = true).
-Proof. exact copy_flag. Qed.
+(* ---------- the copy flag, on the store model of the statement sequences (Model/ThresholdStore.v) ----------
+   honours_copy s s' copy R: the call started in store s, ended in s', returns the object at [loc s'], and
+     rd s' = R (the returned object holds the pure model's value) and
+     copy=true : loc s' = nxt s (a fresh object), loc s' <> loc s, every object that existed before is unchanged;
+     copy=false: loc s' = loc s (the returned object IS the argument), no other object is touched. *)
+Theorem C17_copy_contract_meaning : forall s s' R,
+  (wf s -> honours_copy s s' true R ->
+     hp s' (loc s) = hp s (loc s) /\ loc s' <> loc s /\ hp s' (loc s') = R) /\
+  (honours_copy s s' false R -> loc s' = loc s /\ hp s' (loc s) = R).
+Proof. intros s s' R. split; [exact (honours_copy_true s s' R)|exact (honours_copy_false s s' R)]. Qed.
+
+Theorem C17_copy_threshold_absolute : forall thr copy s, wf s ->
+  honours_copy s (ta_prog thr copy s) copy (threshold_absolute (rd s) thr).
+Proof. exact ta_copy. Qed.
+
+Theorem C17_copy_threshold_proportional : forall order n p copy s, wf s ->
+  match tp_with order n (rd s) p with
+  | None => tp_prog order n p copy s = None
+  | Some R => exists s', tp_prog order n p copy s = Some s' /\ honours_copy s s' copy R
+  end.
+Proof. exact tp_copy. Qed.
+
+Theorem C17_copy_binarize : forall copy s, wf s -> honours_copy s (binarize_prog copy s) copy (binarize (rd s)).
+Proof. exact binarize_copy. Qed.
+
+Theorem C17_copy_normalize : forall n copy s, wf s -> honours_copy s (normalize_prog n copy s) copy (normalize n (rd s)).
+Proof. exact normalize_copy. Qed.
+
+Theorem C17_copy_invert : forall copy s, wf s -> honours_copy s (invert_prog copy s) copy (invert (rd s)).
+Proof. exact invert_copy. Qed.
+
+(* weight_conversion: the command string (as the list of its character codes, [codes "binarize"] = [98;105;...]) selects
+   the utility, anything else raises (None), `copy` is handed on *)
+Theorem C17_wc_dispatch : forall n W wcm,
+  (wcm = codes "binarize" -> weight_conversion_str n W wcm = Some (binarize W)) /\
+  (wcm = codes "normalize" -> weight_conversion_str n W wcm = Some (normalize n W)) /\
+  (wcm = codes "lengths" -> weight_conversion_str n W wcm = Some (invert W)) /\
+  (wcm <> codes "binarize" -> wcm <> codes "normalize" -> wcm <> codes "lengths" ->
+     weight_conversion_str n W wcm = None).
+Proof. exact wc_dispatch. Qed.
+
+Theorem C17_copy_weight_conversion : forall n wcm copy s, wf s ->
+  match weight_conversion_str n (rd s) wcm with
+  | None => wc_prog n wcm copy s = None
+  | Some R => exists s', wc_prog n wcm copy s = Some s' /\ honours_copy s s' copy R
+  end.
+Proof. exact wc_copy. Qed.
+
+(* contrast (logtransform / autofix, not named by C17): a utility whose last statement REBINDS the name does not leave
+   its result in the argument when copy=False *)
+Theorem C17_rebind_not_inplace : forall g s, wf s ->
+  let s' := rebind_shape g false s in
+  loc s' <> loc s /\ hp s' (loc s) = hp s (loc s) /\ rd s' = g (rd s).
+Proof. exact rebind_not_inplace. Qed.
+
+(* normalize is defined (max|W| <> 0) exactly off the all-zero matrix; there the code evaluates 0/0 *)
+Theorem C17_normalize_domain : forall n W,
+  maxabs n W == 0 <-> forall i j, (i < n)%nat -> (j < n)%nat -> W i j == 0.
+Proof. exact maxabs_zero_iff. Qed.
 
 Theorem C17_teachers_round : forall x, 0 < x -> teachers_round x = Qfloor (x + (1 # 2)).
 Proof. exact teachers_round_half_up. Qed.
+
+(* x < 0: exact halves go DOWN (the code takes ceil only if x % 1 > 0.5): round half away from zero *)
+Theorem C17_teachers_round_neg : forall x, x < 0 -> teachers_round x = (- Qfloor (- x + (1 # 2)))%Z.
+Proof. exact teachers_round_neg. Qed.
+
+Theorem C17_teachers_round_zero : forall x, x == 0 -> teachers_round x = 0%Z.
+Proof. exact teachers_round_zero. Qed.
+
+Theorem C17_teachers_round_odd : forall x, teachers_round (- x) = (- teachers_round x)%Z.
+Proof. exact teachers_round_odd. Qed.
 
 (* non-vacuity: a concrete matrix meets the hypotheses and the count is as stated *)
 Example C17_nonvacuous :
@@ -90,7 +175,37 @@ Example C17_nonvacuous :
   exists R, threshold_proportional 3 W (1 # 2) = Some R /\ length (where_nz 3 R) = 4%nat.
 Proof. eexists. split; [reflexivity|]. vm_compute. reflexivity. Qed.
 
+(* non-vacuity of the new families *)
+Example C17_support_nonvacuous :
+  let W := of_rows 0 [[0; 3; 1]; [2; 0; 5]; [1; 4; 0]]%list in
+  exists R, threshold_proportional 3 W (1 # 2) = Some R /\
+    where_nz 3 R = [(0%nat, 1%nat); (1%nat, 2%nat); (2%nat, 1%nat)]%list /\ fst (tp_prep 3 W) = false.
+Proof. eexists. split; [reflexivity|]. vm_compute. split; reflexivity. Qed.
+
+Example C17_copy_nonvacuous :
+  let W := of_rows 0 [[7; 3; 1]; [3; 0; 5]; [1; 5; 0]]%list in
+  wf (init W) /\
+  (exists s, tp_prog sort_desc 3 (1 # 2) true (init W) = Some s /\ loc s = 1%nat /\ hp s 0%nat 0%nat 0%nat = 7 /\ rd s 0%nat 0%nat = 0) /\
+  (exists s, tp_prog sort_desc 3 (1 # 2) false (init W) = Some s /\ loc s = 0%nat /\ hp s 0%nat 0%nat 0%nat = 0) /\
+  wc_prog 3 (codes "foo") true (init W) = None /\
+  (exists s, wc_prog 3 (codes "lengths") false (init W) = Some s /\ loc s = 0%nat /\ Qred (hp s 0%nat 0%nat 1%nat) = 1 # 3).
+Proof.
+  cbv zeta. split; [unfold wf, init; cbn [loc nxt]; apply Nat.lt_0_1|].
+  split; [eexists; split; [reflexivity|vm_compute; repeat split; reflexivity]|].
+  split; [eexists; split; [reflexivity|vm_compute; repeat split; reflexivity]|].
+  split; [reflexivity|].
+  eexists; split; [reflexivity|vm_compute; repeat split; reflexivity].
+Qed.
+
+Example C17_round_nonvacuous :
+  teachers_round (-(5 # 2)) = (-3)%Z /\ teachers_round (5 # 2) = 3%Z /\ teachers_round (-(12 # 5)) = (-2)%Z /\
+  teachers_round (-(13 # 5)) = (-3)%Z.
+Proof. vm_compute. repeat split. Qed.
+
 Print Assumptions C17_tp_count.
+Print Assumptions C17_tp_support.
+Print Assumptions C17_tp_kept_iff.
+Print Assumptions C17_tp_links.
 Print Assumptions C17_tp_strongest.
 Print Assumptions C17_tp_values.
 Print Assumptions C17_tp_diag.
@@ -102,5 +217,17 @@ Print Assumptions C17_binarize.
 Print Assumptions C17_normalize.
 Print Assumptions C17_invert_spec.
 Print Assumptions C17_invert_involutive.
-Print Assumptions C17_copy_flag.
+Print Assumptions C17_copy_contract_meaning.
+Print Assumptions C17_copy_threshold_absolute.
+Print Assumptions C17_copy_threshold_proportional.
+Print Assumptions C17_copy_binarize.
+Print Assumptions C17_copy_normalize.
+Print Assumptions C17_copy_invert.
+Print Assumptions C17_wc_dispatch.
+Print Assumptions C17_copy_weight_conversion.
+Print Assumptions C17_rebind_not_inplace.
+Print Assumptions C17_normalize_domain.
 Print Assumptions C17_teachers_round.
+Print Assumptions C17_teachers_round_neg.
+Print Assumptions C17_teachers_round_zero.
+Print Assumptions C17_teachers_round_odd.
